@@ -882,7 +882,30 @@ def krome_reset(ctx, pkg, rule="R4"):
                   f"`{a}` is reset before every file" if a in reset else
                   f"`{a}` is changed by directive lines (preprocessing) but not reset in initialize(): directives of one file (also of a read that raised half-way) act on the next file")
     # Network calls initialize before reading, on every path
-    from ..valueflow import Flow, simp, norm_guard, show
+    from ..valueflow import Flow, simp, norm_guard, show, guards_satisfiable, _bool_atoms
+
+    def skipped_when(f, recv, scenario):
+        """The guards of the reset call `f` that can fail although something is about to be read: decided propositionally over
+        the atomic conditions -- the format class exists (`recv` truthy / not None, whichever way and wherever the test is written:
+        a guard clause that raises, a cached flag, a conjunction) and `scenario(atom) -> truth value | None` fixes the atoms that
+        describe the reading scenario (the argument is not a Reaction instance).  -> texts of the guards not implied."""
+        gs = [norm_guard((simp(g[0]), g[1])) for g in f.guards]
+        atoms = set()
+        for c, _ in gs:
+            _bool_atoms(c, atoms)
+        prem = []
+        for a in atoms:
+            if a == recv:
+                prem.append((a, True))
+            elif a[0] == "cmp" and a[1] in (("Is",), ("Eq",)) and a[2] == (recv, ("const", None)):
+                prem.append((a, False))
+            elif scenario(a) is not None:
+                prem.append((a, scenario(a)))
+        out = ["<loop>"] if f.loops else []
+        for c, pol in gs:
+            if guards_satisfiable(prem, [(c, not pol)]):
+                out.append(_guard_text([(c, pol)]))
+        return out
     net = pkg.cls("Network")
     for mname in ("add_reaction_from_file", "add_reaction"):
         fn = net.methods[mname]
@@ -907,15 +930,8 @@ def krome_reset(ctx, pkg, rule="R4"):
                 ctx.check(hcall < min(reads_lines), rule, f"Network.{mname}:initialize before reading", (NF, fn.lineno), f"the helper `{h}` that initialises the format class is called before any line is parsed")
                 f = hinit[0]
                 recv = simp(f.value[1])
-                extra = ["<loop>"] if f.loops else []
-                for g in f.guards:
-                    c, pol = norm_guard((simp(g[0]), g[1]))
-                    if c == recv or (c[0] == "cmp" and c[1] in (("Is",), ("Eq",)) and c[2] == (recv, ("const", None))):
-                        continue
-                    # membership of the format NAME in the table of known formats is the same test as "the class exists"
-                    if c[0] == "cmp" and c[1] == ("In",) and c[2][1][0] == "global":
-                        continue
-                    extra.append(_guard_text([(c, pol)]))
+                # membership of the format NAME in the table of known formats is the same test as "the class exists"
+                extra = skipped_when(f, recv, lambda a: True if a[0] == "cmp" and a[1] == ("In",) and a[2][1][0] == "global" else None)
                 ctx.check(not extra, rule, f"Network.{mname}:initialize for every file", (NF, f.line),
                           "the reset depends on nothing but the existence of the format class" if not extra else
                           f"the per-file reset of the format class (in `{h}`) is skipped when `{extra[0]}` does not hold: directive state (@format, @common, @var) of the previous file "
@@ -928,17 +944,9 @@ def krome_reset(ctx, pkg, rule="R4"):
             f = init_calls[0]
             recv = simp(f.value[1])
             rtxt = _src(recv)
-            extra = ["<loop>"] if f.loops else []
-            for g in f.guards:
-                c, pol = norm_guard((simp(g[0]), g[1]))
-                if c == recv:
-                    continue                      # the format class exists (whichever way the test is written)
-                if c[0] == "cmp" and c[1] in (("Is",), ("Eq",)) and c[2] == (recv, ("const", None)):
-                    continue
-                # a Reaction INSTANCE was parsed elsewhere: nothing is read here, nothing to reset
-                if c[0] == "call" and c[1] == ("global", "isinstance") and len(c[2]) == 2 and c[2][0][0] == "param" and c[2][1] == ("global", "Reaction"):
-                    continue
-                extra.append(_guard_text([(c, pol)]))
+            # a Reaction INSTANCE was parsed elsewhere: nothing is read here, nothing to reset
+            extra = skipped_when(f, recv, lambda a: False if a[0] == "call" and a[1] == ("global", "isinstance") and len(a[2]) == 2 and a[2][0][0] == "param"
+                                 and a[2][1] == ("global", "Reaction") else None)
             ctx.check(not extra, rule, f"Network.{mname}:initialize for every file", (NF, f.line),
                       "the reset depends on nothing but the existence of the format class" if not extra else
                       f"the per-file reset of the format class is skipped when `{extra[0]}` does not hold: directive state (@format, @common, @var) of the previous file decodes the next one",
@@ -1026,4 +1034,19 @@ BENIGN = [
         {"file": NF, "old": "        if rclass:\n            rclass.initialize()\n        else:\n            raise RuntimeError(f\"Unknown format: {format}\")\n\n        with open",
          "new": "        if rclass is None:\n            raise RuntimeError(f\"Unknown format: {format}\")\n        rclass.initialize()\n\n        with open"}]},
     {"name": "sorted-set-iteration", "file": NF, "old": "        source = self._reactants.difference(self._products)", "new": "        source = self._reactants.difference(self._products)\n        _names = [s.name for s in sorted(source)]"},
+]
+
+_ADD_INIT = ("        if not isinstance(reaction, Reaction):\n            # create reaction instance from string\n            # change some global settings or class attibutes if needed\n"
+             "            if rclass:\n                rclass.initialize()\n            else:\n                raise RuntimeError(f\"Unknown format: {format}\")")
+BENIGN += [
+    # the unknown-format error as a conjunction guard clause of its own, the isinstance test cached in a flag used for the reset
+    {"name": "initialize-after-conjunction-guard-clause", "file": NF, "old": _ADD_INIT,
+     "new": "        from_string = not isinstance(reaction, Reaction)\n        if from_string and not rclass:\n            raise RuntimeError(f\"Unknown format: {format}\")\n\n"
+            "        if from_string:\n            rclass.initialize()"},
+]
+MUTANTS += [
+    # the same spelling with the reset additionally tied to the network being empty
+    {"name": "initialize-after-guard-clause-only-when-empty", "file": NF, "old": _ADD_INIT,
+     "new": "        from_string = not isinstance(reaction, Reaction)\n        if from_string and not rclass:\n            raise RuntimeError(f\"Unknown format: {format}\")\n\n"
+            "        if from_string and not self.reaction_list:\n            rclass.initialize()", "rules": ["R4"]},
 ]
